@@ -129,7 +129,7 @@ REJECT = [
 def r2_rejections(ctx, F):
     for pat, err, what in REJECT:
         fn = F.fn(pat)
-        fam = [fn] + [g for g in F.fns.values() if g.id.startswith(fn.id + "::{closure")]
+        fam = family(F, fn)
         has = any(re.search(err, c) for g in fam for bi, c, t in g.calls()) or \
             any(re.search(err, s["r"].get("variant", "")) for g in fam for b in g.blocks for s in b["s"] if s["r"]["k"] == "agg")
         ctx.inst(key=what, nontrivial=True)
